@@ -23,7 +23,7 @@ def patches(case):
     return fs.fit_patches()
 
 
-def batch_case(M, model, m, n, rows, batch, kkind="vec", bkind="vec", wkind="mat", witness_f14=False):
+def batch_case(M, model, m, n, rows, batch, kkind="vec", bkind="vec", wkind="mat", witness_f14=False, layout="C"):
     A, K, base, lb, ub, lbl, ubl = fs.mk_system(M, m, n, kkind, bkind, "pos", "fin")
     B = M.real("B", (rows, m), sample=lambda r, s: r.uniform(0.5, 3.0, size=s))
     W = {"none": lambda: None, "mat": lambda: M.real("W", (rows, m), sample=lambda r, s: r.uniform(0.5, 2.0, size=s))}[wkind]()
@@ -34,7 +34,14 @@ def batch_case(M, model, m, n, rows, batch, kkind="vec", bkind="vec", wkind="mat
         fs.assume_nonneg_system(M, A, K, base, B, kkind)
     xc = M.real("xc", (rows, n), sample=lambda r, s: r.uniform(0.3, 1.0, size=s))
     symcp.reset()
-    X, Bp = fs.call_model(model, A, B, lb, ub, W, K, base, batch)
+    if layout == "F":
+        # memory layout of the caller's arrays must not matter (Fortran-ordered / transposed views)
+        Bc = np.asfortranarray(np.asarray(B)); Wc = None if W is None else np.asfortranarray(np.asarray(W))
+        if M.symbolic:
+            Bc = Bc.view(symnp.SymArray); Wc = None if Wc is None else Wc.view(symnp.SymArray)
+        X, Bp = fs.call_model(model, A, Bc, lb, ub, Wc, K, base, batch)
+    else:
+        X, Bp = fs.call_model(model, A, B, lb, ub, W, K, base, batch)
     X = np.asarray(X); Bp = np.asarray(Bp)
     Aeff, beff = fs.effective_model(A, K, base, kkind)
     goals = {"shapes": X.shape == (rows, n) and Bp.shape == (rows, m)}
@@ -154,6 +161,10 @@ def cases(tier, seed):
                     kw["witness_f14"] = True  # keep the per-row clause on two representative cases so that F14 stays witnessed
                 C.append(dict(name=f"{model} n={rows} batch={batch} 2x2", body="batch_case", expect_tags=tags,
                               kwargs=kw, opts=dict(timeout_ms=60000, n_validate=1)))
+    for model in ("gaussian", "poisson"):
+        for rows, batch in ((2, 2), (3, 2), (2, "full"), (1, 3)):
+            C.append(dict(name=f"{model} n={rows} batch={batch} 2x2 Fortran-ordered targets and weights", body="batch_case",
+                          kwargs=dict(model=model, m=2, n=2, rows=rows, batch=batch, layout="F"), opts=dict(timeout_ms=60000, n_validate=1)))
     Nm = 4 if big else 3
     for rows in range(1, Nm + 1):
         for batch in list(range(1, Nm + 3)) + ["full"]:
